@@ -83,6 +83,24 @@ def validate_json(schema, path):
     return '' if p.returncode == 0 else (p.stderr or p.stdout)
 
 
+def replay_in_fresh_process(prop, e, seed, repo):
+    import subprocess
+    import tempfile
+    from mc import core
+    fd, path = tempfile.mkstemp(suffix='.json', prefix='replay_')
+    os.close(fd)
+    try:
+        with open(path, 'w') as f:
+            json.dump({'property': prop, 'fn': e['fn'], 'case': core.jsonable(e['case']), 'sub': e['sub'],
+                       'sig': e['sig'], 'seed': seed}, f)
+        env = dict(os.environ, VERIF_SEED=str(seed), VERIF_REPO=repo)
+        p = subprocess.run([sys.executable, '-m', 'mc.run', prop, '--replay', path], cwd=core.VERIF, env=env,
+                           capture_output=True, text=True)
+        return p.returncode == 1 and ('VIOLATION property=%s' % prop) in p.stdout
+    finally:
+        os.unlink(path)
+
+
 def replay(mod, path):
     from mc import core
     with open(path) as f:
@@ -113,12 +131,21 @@ def finish(ctx, mod, write_evidence=True):
         if sig.startswith('harness/'):
             harness.append(e)
             continue
-        # replay twice in this process: the same case must fail the same way
+        # replay twice in this process: the same case must fail the same way.  A defect that corrupts
+        # process-wide state (a shared default, a class-level cache) changes what a second execution in the
+        # same process sees, so a case that does not reproduce here is replayed twice more, each time in a
+        # fresh interpreter, before it is called nondeterministic.
         ok = True
         for _ in range(2):
             r = core.call_case(mod, e['fn'], e['case'])
             if sig not in [v['sig'] for v in r.violations]:
                 ok = False
+        if not ok:
+            ok = replay_in_fresh_process(prop, e, ctx.seed, ctx.repo) and \
+                replay_in_fresh_process(prop, e, ctx.seed, ctx.repo)
+            if ok:
+                e['detail'] = dict(e['detail'], replay_note='reproduces only in a fresh process '
+                                   '(the violation changes process-wide state)')
         if not ok:
             harness.append(dict(e, sig='harness/nondeterministic-violation/' + sig))
             continue
